@@ -354,7 +354,7 @@ def run(ctx):
         b = ctx.body(name)
         for bb, ed, ow, si in b.enum_guards(r"::ReferenceValidation$"):
             ex = arm_regions(b, bb, ed)
-            tab = {v: sorted({t["f"].rsplit("::", 1)[1] for x, t in b.calls(r"NodeId::is_\w+$") if x in reg}) for v, reg in ex.items()}
+            tab = {v: sorted({t["f"].rsplit("::", 1)[-1] for x, t in b.calls(r"NodeId::is_\w+$") if x in reg}) for v, reg in ex.items()}
             if any(tab.values()):
                 tables[name] = (tab, ow, b.loc(bb))
     ctx.floor("reference-validation-tables", len(tables), 3)
